@@ -255,7 +255,13 @@ def _strategies():
              '10n', '1.5n', '1e3n', 'true', 'false', "''", "'a'", '"q"', "'it\\'s'",
              "r'raw\\n'", '$$dollar$$', "'multi\\nline'", "b'bytes'", "b'\\x00\\xff'",
              '$0', '$name', '$`p q`', '<int64>$1', '<optional str>$opt', '{}',
-             "'\\u00e9'", "'\\x41'", '"dq\'s"']))
+             "'\\u00e9'", "'\\x41'", '"dq\'s"',
+             # escapes the printer has to reproduce: bidirectional controls, line separators
+             "'a\\u202eb\\u202c'", "'\\u2066x\\u2069'", "'\\u2028'", "'\\u200b\\ufeff'", "'\\r\\t\\b\\f'",
+             # interpolated strings (fragments go through their own escaping path)
+             "'pre \\(1) mid \\('in') post'", "'\\(.name)'", "'it\\'s \\(x)!'", '"dq \\(x ++ "y") z"',
+             "'bidi: \\u202e\\(.name)\\u202c!'", "'nl\\n\\(1)\\ttab\\u00e9'", "'\\(1)\\(2)'",
+             "'nested \\('a \\(1) b') end'", "'$ \\(1) $$ \\\\'"]))
     path = st.one_of(
         ident,
         st.tuples(shortid, st.sampled_from(['.', '.<', '@', '?.'] if False else ['.', '.<']),
